@@ -430,6 +430,8 @@ type ctx struct {
 	// stalls per helper name ("" = serve): after a few, further cases of that kind are
 	// skipped so that a systematic wedge is reported in seconds, not after the timeout
 	stalls map[string]int
+	// child: non-nil in a child process (see child.go)
+	child *childOut
 }
 
 const maxStalls = 4
@@ -438,8 +440,7 @@ const maxStalls = 4
 // "ok" for every input), counts it, and turns a panic / stall into an oracle failure plus a
 // panicsite line that asks the checker whether it had flagged that site.
 func (c *ctx) record(line string, o outcome, class string) {
-	c.r.Line(line, o.obs())
-	c.r.Case(line, true, class+":"+o.obs())
+	r := rec{Lines: [][2]string{{line, o.obs()}}, Canon: line, Class: class + ":" + o.obs()}
 	switch {
 	case o.panicMsg != "":
 		fn, file, ln := panicLocation(o.stack, c.repo)
@@ -452,22 +453,28 @@ func (c *ctx) record(line string, o outcome, class string) {
 		if c.an != nil {
 			if fs, site := c.an.locate(file, ln); fs != nil {
 				pl := fmt.Sprintf("panicsite %s %d", fs.Skel.Encode(), site)
-				c.r.Line(pl, "flagged")
+				r.Lines = append(r.Lines, [2]string{pl, "flagged"})
 				lines = append(lines, c.r.Prop+" "+pl)
 			} else {
 				detail += " (outside the skeleton scope)"
 			}
 		}
-		c.r.Fail("no-panic", key, lines, detail)
+		r.Fail = &recFail{Clause: "no-panic", Key: key, Lines: lines, Detail: detail}
 	case o.stalled:
 		key := "stall:serve"
-		if f := strings.Fields(line); f[0] == "helper" {
+		f := strings.Fields(line)
+		switch f[0] {
+		case "helper":
 			if n, err := common.UnHex(f[1]); err == nil {
 				key = "stall:helper:" + string(n)
 			}
+		case "scen":
+			key = "stall:scen:" + f[1]
 		}
-		c.r.Fail("no-wedge", key, []string{c.r.Prop + " " + line}, "still running after "+watchdog.String()+": "+o.where)
+		r.Fail = &recFail{Clause: "no-wedge", Key: key, Lines: []string{c.r.Prop + " " + line},
+			Detail: "still running after " + watchdog.String() + ": " + o.where}
 	}
+	c.emit(r)
 }
 
 // locate finds the function whose body spans file:line and the id of a site at that line
@@ -493,7 +500,7 @@ func (an *analysis) locate(file string, line int) (*funcSkel, int) {
 }
 
 func (c *ctx) serve(input string, class string) {
-	if c.stalls[""] >= maxStalls {
+	if c.stalls[""] >= maxStalls || !c.begin("serve "+common.HexS(input)) {
 		return
 	}
 	t0 := time.Now()
@@ -508,7 +515,7 @@ func (c *ctx) serve(input string, class string) {
 }
 
 func (c *ctx) helper(h *helper, typ, reply, class string) {
-	if c.stalls[h.name] >= maxStalls {
+	if c.stalls[h.name] >= maxStalls || !c.begin("helper "+common.HexS(h.name)+" "+typ+" "+common.HexS(reply)) {
 		return
 	}
 	t0 := time.Now()
@@ -548,6 +555,11 @@ func (c *ctx) replay(lines []string) error {
 				return err
 			}
 			c.serve(string(b), "replay")
+		case "scen":
+			if len(f) != 4 {
+				return fmt.Errorf("bad replay line %q", l)
+			}
+			c.scen(scenario{name: f[2], steps: strings.Split(f[3], ",")}, "replay")
 		case "helper":
 			if len(f) != 5 {
 				return fmt.Errorf("bad replay line %q", l)
